@@ -20,7 +20,7 @@ RULE = ('codec: all 4x4 targets x 7 functions x last-packet flag x payload lengt
 ASSUMPTIONS = ['TCP framing: u16 little-endian length of the CPX wire data, then the wire data (2 header bytes + payload)',
                'UART framing: 0xFF, length, wire data, XOR checksum; 0xFF 0x00 is the clear-to-send acknowledgement',
                'receiver queues exist before packets arrive (the router drops packets for functions nobody asked for yet)']
-REQUIRED = ['mon.codec', 'mon.bad_version', 'mon.short_streams_all_cuts', 'mon.long_streams', 'mon.router_packets',
+REQUIRED = ['mon.router_transactions_on_a_function_with_packets_waiting', 'mon.codec', 'mon.bad_version', 'mon.short_streams_all_cuts', 'mon.long_streams', 'mon.router_packets',
             'mon.tcp_crtp_up', 'mon.tcp_crtp_down', 'mon.serial_crtp_up', 'mon.serial_crtp_down', 'mon.crtp_packet_objects_sent_again', 'mon.uart_cpx_packets_of_every_length', 'mon.frames_of_32k_and_more',
             'mon.router_streams_with_rejected_frames']
 EXHAUSTIVE = {'quick': False, 'thorough': False}
@@ -319,10 +319,20 @@ def run_router(desc, ctx):
                 sock.feed(s, cuts)
                 import threading
 
+                transactor = min(listen) if desc['seed'] % 3 != 1 else None
+                trnd = random.Random(desc['seed'] ^ 0x7A)
+
                 def rx(f):
                     want = sum(1 for p in pk if p[2] == f)
                     for _ in range(want):
-                        p = c.receivePacket(cpx.CPXFunction(f), timeout=50.0)
+                        if f == transactor and trnd.random() < 0.4:
+                            # request / answer on this function: the request goes out, the next packet of the function is
+                            # the answer (packets of the function that arrived earlier are still handed over first)
+                            req = cpx.CPXPacket(function=cpx.CPXFunction(f), destination=cpx.CPXTarget.GAP8, data=bytearray(b'?'))
+                            p = c.makeTransaction(req)
+                            ob['transactions'] = ob.get('transactions', 0) + 1
+                        else:
+                            p = c.receivePacket(cpx.CPXFunction(f), timeout=50.0)
                         ob['got'][f].append((p.source.value, p.destination.value, p.function.value, bool(p.lastPacket), bytes(p.data)))
                 ths = [threading.Thread(target=rx, args=(f,)) for f in listen]
                 for t in ths:
@@ -353,6 +363,7 @@ def run_router(desc, ctx):
             ctx.violate('cpx:router-queue-differs-from-arrival-order-of-its-function',
                         {'function': f, 'want': len(want), 'got': len(ob['got'][f]),
                          'first_mismatch': next((i for i, (g, w) in enumerate(zip(ob['got'][f], want)) if g != w), None)})
+    ctx.count('mon.router_transactions_on_a_function_with_packets_waiting', ob.get('transactions', 0))
     ctx.nontrivial(('router', core.h64(s), tuple(sorted(listen))))
     ctx.sample({'router_packets': len(pk), 'listening_functions': sorted(listen), 'functions_in_stream': funcs})
 
